@@ -89,11 +89,24 @@ PATHS = ["", "/", "/a", "/a/", "/a/b", "/a//b", "/a/b/", "/a/index.html", "/a/./
          # an escaped pipe is just text; a padded URL is its own spelling
          "/a%7Cb", "/a%7cb", "/a ",
          # AMP markers and index pages
-         "/amp", "/a/amp/", "/a.amp.html", "/a.amp", "/a/index.php", "/index.html", "/a/default.aspx", "/a/b/..", "/a/b/.", "/a;x=1", "/a%2Fb", "/a%20b", "/a+b", "/é", "/%C3%A9"]
+         "/amp", "/a/amp/", "/a.amp.html", "/a.amp", "/a/index.php", "/index.html", "/a/default.aspx", "/a/b/..", "/a/b/.", "/a;x=1", "/a%2Fb", "/a%20b", "/a+b", "/é", "/%C3%A9",
+         # double-encoded delimiters next to their once-encoded spellings; composed and
+         # decomposed spellings of one character (different strings, different keys)
+         "/a%253Fb", "/a%2523b", "/a%2541", "/caf%C3%A9", "/cafe%CC%81", "/caf\u00e9", "/cafe\u0301"]
+TWIN_GROUPS = [
+    ["/a%253Fb", "/a%3Fb", "/a?b", "/a%3fb"],
+    ["/a%2523b", "/a%23b", "/a#b"],
+    ["/caf%C3%A9", "/cafe%CC%81", "/caf\u00e9", "/cafe\u0301", "/caf%c3%a9"],
+    ["/a%7Cb", "/a%7cb", "/a|b"],
+    ["/../a", "/a", "/a/../a", "/%61", "/./a"],
+    ["/a/", "/a", "/a/index.html", "/a//", "/a/?"],
+    ["/a?x=1&y=2", "/a?y=2&x=1", "/a?x=1&amp;y=2", "/a?x=1&y=2&utm_source=z", "/a?x=1&y=2#f"],
+    ["/a%2541", "/a%41", "/aA", "/aa"],
+]
 QUERIES = ["", "x=1", "x=1&y=2", "y=2&x=1", "utm_source=z&x=1", "x=1&utm_source=z", "X=1", "hl=fr&x=1", "k=a|b", "k=%3d1", "k=%3D1",
            # items the normaliser knows about, and malformed queries
-           "amp", "amp=1", "outputType=amp", "mode=amp&x=1", "m=1", "ref=bookmark", "fbclid=abc&x=1", "gl=us&x=1", "x=1&amp;y=2", "x=1?y=2", "x", "x=", "=1", "&", "x=1&", "x=1&&y=2", "x=1;y=2", "x=1&x=2", "x=2&x=1", "x=a%20b", "x=a+b"]
-FRAGMENTS = ["", "#f", "#/route", "#!/route"]
+           "amp", "amp=1", "outputType=amp", "mode=amp&x=1", "m=1", "ref=bookmark", "fbclid=abc&x=1", "gl=us&x=1", "x=1&amp;y=2", "x=1?y=2", "x", "x=", "=1", "&", "x=1&", "x=1&&y=2", "x=1;y=2", "x=1&x=2", "x=2&x=1", "x=a%20b", "x=a+b", "b", "k=%2523"]
+FRAGMENTS = ["", "#f", "#/route", "#!/route", "#b"]
 PORTS = ["", ":80", ":443", ":8080", ":"]
 SCHEMES = ["http://", "https://", "", "HTTP://", "//"]
 AUTHS = ["", "", "", "user:pw@"]
@@ -145,6 +158,12 @@ def build_universe(crng, size):
     for h in hosts:
         for p in paths[: crng.choice([3, 4, len(paths)])]:
             push(schemes[0] + h + p)
+    # spellings that belong together (or look as if they did) on one host
+    if crng.random() < 0.35:
+        group = crng.choice(TWIN_GROUPS)
+        for h in hosts[: crng.choice([1, 2])]:
+            for p in group:
+                push(schemes[0] + h + p)
     if "platform" in fams:
         for h in hosts:
             if h in HOST_FAMILIES["platform"] and h != "lemonde.fr":
